@@ -279,6 +279,11 @@ pub fn table(ctx: &Ctx) -> Report {
         adds(format!("ldapi://{}", pct_path(&unix_plain)), Stream::TcpTo(pe), Expect::Err(vec!["MismatchedStreamType"]), "TCP stream with an ldapi URL naming a live socket");
         adds(format!("ldaps://127.0.0.1:{}", pe), Stream::Invalid, Expect::Err(vec!["MismatchedStreamType"]), "invalid (cloned) stream with ldaps");
         adds(format!("ldap://127.0.0.1:{}", pe), Stream::Invalid, Expect::Err(vec!["MismatchedStreamType"]), "invalid (cloned) stream with ldap");
+        // --- an unknown scheme stays unknown whatever else is set ---
+        for sch in ["http", "ldapx", "ldapss", "foo"] {
+            cases.push(Case { url: format!("{}://127.0.0.1:{}", sch, pe), starttls: true, timeout_ms: Some(3000), stream: Stream::None, expect: Expect::Err(vec!["UnknownScheme"]), max_ms: None, note: "unknown scheme with StartTLS enabled" });
+            cases.push(Case { url: format!("{}://127.0.0.1:{}", sch, pe), starttls: false, timeout_ms: None, stream: Stream::None, expect: Expect::Err(vec!["UnknownScheme"]), max_ms: None, note: "unknown scheme without a connection timeout" });
+        }
         // --- "effectively forever" connection timeouts are just long timeouts ---
         for t in [u64::MAX, u64::MAX - 1] {
             cases.push(Case { url: format!("ldap://127.0.0.1:{}", pe), starttls: false, timeout_ms: Some(t), stream: Stream::None, expect: Expect::OkVia("tcp4:eph".into()), max_ms: None, note: "huge connection timeout, reachable endpoint" });
